@@ -59,7 +59,7 @@ def wrap(kind, inner):
     if kind == "propertyNames":
         return Element(propertyNames=inner)
     if kind == "dependencies":
-        return Element(dependencies={"a": inner})
+        return Element(dependencies={"n": ["a", "b"], "a": inner, "z": []})
     if kind == "anyOf":
         return AnyOf(String(), inner)
     if kind == "oneOf":
@@ -122,7 +122,8 @@ def build(case):
         if pattern:
             kwargs["patternProperties"] = pattern
         if deps:
-            kwargs["dependencies"] = deps
+            # property-name lists next to schema dependencies
+            kwargs["dependencies"] = {"lst": ["x"], **deps, "lst2": []}
         base = case.get("bases", {}).get(str(i))
         if base is None:
             classes.append(Object.inline(f"C{i}", properties=props, **kwargs))
